@@ -15,7 +15,7 @@ static struct evm ring[64]; static int rcount; static struct evm cur; static boo
 static long next_id, last_started, processed, accepted, refused, failed_fast, opn, nops;
 static int script_left; static unsigned p_write; static prng_t HP;
 static bool hold_active; static long started_observed;
-static bool saw_action_for_cur, cur_terminal_returned;
+static bool saw_action_for_cur, cur_terminal_returned, cur_var_failed;
 
 static bool model_buffered(int cmd, int type)
 {
@@ -34,7 +34,7 @@ static void on_phase(int code)
                 if (pc != W.cmd[e.cmd] || W.at->unsolicited_fsm.cmd_type != (cat_cmd_type)e.type)
                         viol("C13", "not-fifo", "dequeued (cmd#%d, type %d) but the oldest accepted event is id %ld = (cmd#%d, type %d)", cmd_index(pc), (int)W.at->unsolicited_fsm.cmd_type, e.id, e.cmd, e.type);
                 if (e.id <= last_started) viol("C13", "order", "event id %ld started after id %ld", e.id, last_started);
-                last_started = e.id; cur = e; inprog = true; saw_action_for_cur = false; cur_terminal_returned = false; script_left = (int)pr_n(&HP, 3);
+                last_started = e.id; cur = e; inprog = true; saw_action_for_cur = false; cur_terminal_returned = false; cur_var_failed = false; script_left = (int)pr_n(&HP, 3);
                 CNT("events_dequeued");
         } else if (code == 4) {
                 if (inprog) { inprog = false; processed++; if (!saw_action_for_cur) { failed_fast++; CNT("events_failed_at_once"); } CNT("events_finished"); }
@@ -58,6 +58,17 @@ static cat_return_state policy(struct hcall *h)
         if (r == 3 || r == 4) { hold_active = false; CNT("event_handlers_returning_hold_exit"); }      /* releases a held command, if any; a no-op otherwise */
         return r == 0 ? CAT_RETURN_STATE_OK : r == 1 ? CAT_RETURN_STATE_ERROR : r == 2 ? CAT_RETURN_STATE_PRINT_CMD_LIST_OK : r == 3 ? CAT_RETURN_STATE_HOLD_EXIT_OK :
                r == 4 ? CAT_RETURN_STATE_HOLD_EXIT_ERROR : r == 5 ? (cat_return_state)42 : CAT_RETURN_STATE_DATA_OK;
+}
+/* variable read callbacks of event commands fail now and then: the event ends there (nothing is printed for it), it is not started over */
+static int vpolicy(int ci, int vi, int dir, size_t ws)
+{
+        (void)vi; (void)ws;
+        if (PHASE != 1 || dir != 0) return 0;
+        saw_action_for_cur = true;
+        if (!inprog || ci != cur.cmd) viol("C13", "handler-for-other-event", "variable callback of cmd#%d ran in the event step while the event in progress is %s cmd#%d", ci, inprog ? "" : "none /", cur.cmd);
+        if (inprog && cur_var_failed) viol("C13", "event-processed-twice", "a variable of event id %ld (cmd#%d) was read again after its read callback had failed (the event is being processed a second time)", cur.id, cur.cmd);
+        if (pr_pct(&HP, 25)) { cur_var_failed = true; CNT("event_variable_reads_failing"); return pr_pct(&HP, 50) ? 1 : -3; }
+        return 0;
 }
 static void on_write(bool isA, char c, bool ok) { (void)c; (void)ok; if (!isA) { saw_action_for_cur = true; if (!inprog) viol("C13", "output-without-event", "event producer offered output while no event is in progress"); } }
 
@@ -107,8 +118,8 @@ void chk_run_case(uint64_t seed, long c, bool is_sweep)
         struct cat_command *arr = w_group(NCMD, false);
         static uint8_t dummy;
         (void)dummy;
-        arr[0].name = xstr("+AUTO"); { struct cat_variable *v = w_vars(&arr[0], 1); v->type = CAT_VAR_UINT_DEC; v->name = "X"; uint8_t *d = w_vdata(v, 1); *d = 9; }
-        arr[1].name = xstr("+H"); arr[1].read = h_read; arr[1].test = h_test; { struct cat_variable *v = w_vars(&arr[1], 1); v->type = CAT_VAR_UINT_DEC; uint8_t *d = w_vdata(v, 2); d[0] = 1; }
+        arr[0].name = xstr("+AUTO"); { struct cat_variable *v = w_vars(&arr[0], 1); v->type = CAT_VAR_UINT_DEC; v->name = "X"; uint8_t *d = w_vdata(v, 1); *d = 9; v->read = hv_read; }
+        arr[1].name = xstr("+H"); arr[1].read = h_read; arr[1].test = h_test; { struct cat_variable *v = w_vars(&arr[1], 1); v->type = CAT_VAR_UINT_DEC; uint8_t *d = w_vdata(v, 2); d[0] = 1; v->read = hv_read; }
         arr[2].name = xstr("+FAIL");                                                      /* READ fails at once, TEST prints "+FAIL=" */
         arr[3].name = xstr("+LONGNAMETHATDOESNOTFITINTHEEVENTBUFFERATALL0123456789"); arr[3].read = h_read;   /* never fits */
         arr[4].name = xstr("+H2"); arr[4].read = h_read; arr[4].test = h_test;
@@ -117,7 +128,7 @@ void chk_run_case(uint64_t seed, long c, bool is_sweep)
         w_buffers(shared ? 64 + rn(2) : 48, shared, 24 + rn(16));
         w_init((int)rn(2));
         pr_seed(&HP, seed ^ 0x13, (uint64_t)CUR_CASE);
-        POLICY = policy; ON_PHASE = on_phase; ON_WRITE = on_write;
+        POLICY = policy; VPOLICY = vpolicy; ON_PHASE = on_phase; ON_WRITE = on_write;
         rcount = 0; inprog = false; next_id = 1; last_started = 0; processed = accepted = refused = failed_fast = 0; script_left = 0; hold_active = false; started_observed = 0;
         memset(&cur, 0, sizeof cur);
         nops = 50 + (long)rn(chance(20) ? 5000 : 600);
